@@ -644,9 +644,24 @@ def privatize(spec):
     """Counterfactual for F26: every eager reader (Snapshot, EagerState) gets a private copy of the container it is given,
     written inline below it, instead of an alias to a container that occurs earlier in the document."""
     old = spec['nodes']
+    edges = {i: list(children(n)) for i, n in enumerate(old)}
+    for h, t in spec.get('cycles', []):
+        edges[h].append(t)
+    rev = {}
+    for a, bs in edges.items():
+        for b in bs:
+            rev.setdefault(b, []).append(a)
+
+    def in_deep_context(i):
+        # the arguments of python/object/apply are built in deep mode at once; the state of a class with __setstate__ is built
+        # when its queued second phase runs - after the earlier containers have been filled - unless the node itself lies
+        # below a deep-constructed node, which runs that second phase at once
+        if old[i][0] == 'snapshot':
+            return True
+        return any(old[a][0] in DEEP_KINDS for a in reach_set(rev, i) - {i})
     m, copy_at, pos = {}, {}, 0
     for i, n in enumerate(old):
-        if n[0] in EAGER_KINDS and old[n[1]][0] in TWO_PHASE_CONTAINERS:
+        if n[0] in EAGER_KINDS and old[n[1]][0] in TWO_PHASE_CONTAINERS and in_deep_context(i):
             copy_at[i] = pos
             pos += 1
         m[i] = pos
